@@ -5,9 +5,8 @@
     (table 2-1, written independently in Spec/X86.v) reads back as exactly that base, index and
     signed displacement, consuming exactly the emitted bytes, whatever follows.  The special cases
     ([BP] with no displacement, disp8 versus disp16 at -128/127) are ordinary cases of the statement.
-    32-bit addressing is proved for every single-base shape (all eight registers); base+index*scale
-    shapes are not proved: they are covered by the exhaustive correspondence and by evaluating the
-    decoder on gosk's own output (three SIB defects are known findings). *)
+    32-bit addressing is proved for every shape as well (C02_modrm32_exact): the proof became possible
+    after three SIB defects were repaired in /repo. *)
 From Coq Require Import List ZArith String Bool.
 From Gosk Require Import Base.Bytes Model.Ast Model.Asm Model.X86Enc Spec.X86 Lemmas.ModRMLemmas Lemmas.ModRM32Lemmas.
 Import ListNotations.
@@ -20,24 +19,36 @@ Theorem C02_modrm16_exact : forall b i eb ei reg d rest,
 Proof. exact modrm16_sound. Qed.
 Print Assumptions C02_modrm16_exact.
 
-(* 32-bit addressing, single base register: all eight bases (ESP goes through the SIB byte 24h, EBP gets its mandatory
-   disp8 0), every register field, every displacement in the int32 range *)
-Theorem C02_modrm32_base_disp0 : forall b nb reg rest, In (b, nb) r32n -> b <> "EBP"%string -> In reg regs8 ->
-  modrm32_ok (mk_mem b "" 0 0) (Some nb) None 1 reg 0 rest.
-Proof. exact modrm32_base_disp0. Qed.
-Theorem C02_modrm32_base_disp8 : forall b nb reg d rest, In (b, nb) r32n -> In reg regs8 -> -128 <= d <= 127 -> (d <> 0 \/ b = "EBP"%string) ->
-  modrm32_ok (mk_mem b "" 0 d) (Some nb) None 1 reg d rest.
-Proof. exact modrm32_base_disp8. Qed.
-Theorem C02_modrm32_base_disp32 : forall b nb reg d rest, In (b, nb) r32n -> In reg regs8 -> - 2 ^ 31 <= d < 2 ^ 31 -> ~ (-128 <= d <= 127) ->
-  modrm32_ok (mk_mem b "" 0 d) (Some nb) None 1 reg d rest.
-Proof. exact modrm32_base_disp32. Qed.
-Print Assumptions C02_modrm32_base_disp32.
+(* 32-bit addressing, EVERY shape: absolute, single base (all eight; ESP through SIB 24h, EBP with its mandatory disp8 0),
+   base + index*scale and index*scale without base (always disp32), every scale, every register field, every
+   displacement in the int32 range.  Holds since the fixes 8b99564 and 1f66a07 in /repo; before them [EAX+EAX],
+   [EBP+index] and [index*scale+disp] were refuted (see known_findings.txt, fixed: lines). *)
+Theorem C02_modrm32_exact : forall b i sc eb ei esc reg d rest,
+  In (b, i, sc, eb, ei, esc) shapes32 -> In reg regs8 -> - 2 ^ 31 <= d < 2 ^ 31 ->
+  exists x, calc_modrm (mk_mem b i sc d) M32 (reg * 8) = Some x
+            /\ decode_modrm 32 (modrm_bytes x ++ rest) = Some (reg, RmMem (ea32 eb ei esc d), zlen (modrm_bytes x)).
+Proof. exact modrm32_sound. Qed.
+Print Assumptions C02_modrm32_exact.
+
+(* in 16-bit mode an operand written with 32-bit registers yields the same bytes (behind the 67h prefix) *)
+Theorem C02_modrm32_in_bits16 : forall b i sc d rb, falls_to_32 b i = true ->
+  calc_modrm (mk_mem b i sc d) M16 rb = calc_modrm (mk_mem b i sc d) M32 rb.
+Proof. exact calc_modrm_16_as_32. Qed.
+Theorem C02_modrm32_in_bits16_domain : forallb (fun '(b, i) => falls_to_32 b i) regpairs32 = true.
+Proof. exact falls_to_32_all. Qed.
+Print Assumptions C02_modrm32_in_bits16.
 
 Example C02_bp_needs_disp : exists x, calc_modrm (mk_mem "BP" "" 0 0) M16 0 = Some x /\ modrm_bytes x = [70; 0].
 Proof. eexists. split; reflexivity. Qed.
 
-(* the SIB defect on the model: [EAX+EAX] loses its SIB byte (finding X86-sib-zero-dropped) *)
-Theorem C02_sib_zero_refuted : exists x, calc_modrm (mk_mem "EAX" "EAX" 1 0) M32 8 = Some x /\ modrm_bytes x = [12]
-  /\ decode_modrm 32 (modrm_bytes x) = None.
-Proof. eexists. repeat split; reflexivity. Qed.
-Print Assumptions C02_sib_zero_refuted.
+(* the three shapes that used to be wrong are ordinary members of the domain *)
+Example C02_shapes32_nonvacuous :
+  In ("EAX", "EAX", 1, Some 0, Some 0, 1)%string shapes32 /\ In ("EBP", "ESI", 1, Some 5, Some 6, 1)%string shapes32
+  /\ In ("", "EAX", 2, None, Some 0, 2)%string shapes32 /\ Datatypes.length shapes32 = 261%nat.
+Proof. vm_compute. intuition. Qed.
+Example C02_sib_zero_kept : exists x, calc_modrm (mk_mem "EAX" "EAX" 1 0) M32 8 = Some x /\ modrm_bytes x = [12; 0].
+Proof. eexists. split; reflexivity. Qed.
+Example C02_ebp_index : exists x, calc_modrm (mk_mem "EBP" "ESI" 1 0) M32 8 = Some x /\ modrm_bytes x = [76; 53; 0].
+Proof. eexists. split; reflexivity. Qed.
+Example C02_index_only : exists x, calc_modrm (mk_mem "" "EAX" 2 1) M32 8 = Some x /\ modrm_bytes x = [12; 69; 1; 0; 0; 0].
+Proof. eexists. split; reflexivity. Qed.
